@@ -532,7 +532,9 @@ def r01d(ctx):
     q = m.need_class("FixedKeyDictNode")
     f = m.method(q, "_child_edits")
     other = func_params(f.node)[1]
-    loops = [n for n in f.node.body if isinstance(n, ast.For)]
+    from ..astx import desugar_yield_from
+    fnode = desugar_yield_from(f.node)          # `yield from (X for v in it if c)` reads as the loop it abbreviates
+    loops = [n for n in fnode.body if isinstance(n, ast.For)]
     n = 0
     if len(loops) < 2:
         raise Inconclusive("_child_edits: expected loops over own pairs and over the other mapping")
@@ -592,9 +594,8 @@ def r01d(ctx):
     # lookup pairs equal keys: other_kvp = node[key] with the loop's key
     n += 1
     keyvar = own.target.elts[0].id if isinstance(own.target, ast.Tuple) else None
-    look = [s for s in ast.walk(own) if isinstance(s, ast.Assign) and isinstance(s.value, ast.Subscript)
-            and dotted(s.value.value) == other]
-    if look and keyvar and dotted(look[0].value.slice) == keyvar:
+    look = [s for s in ast.walk(own) if isinstance(s, ast.Subscript) and isinstance(s.ctx, ast.Load) and dotted(s.value) == other]
+    if look and keyvar and all(dotted(l_.slice) == keyvar for l_ in look):
         ctx.proved("R01d", f.file, "FixedKeyDictNode._child_edits", look[0], "same-key lookup",
                    f"the partner is {other}[{keyvar}] - the pair with the same key")
     else:
@@ -637,7 +638,7 @@ def r01d(ctx):
         ctx.violation("R01d", f.file, "FixedKeyDictNode._child_edits", fl[0] if fl else f.node, "foreign pairs",
                       "pairs of the other mapping are not inserted exactly once when (and only when) their key is absent")
     n += 1
-    exits = [x for x in walk_no_nested(f.node) if isinstance(x, (ast.Return, ast.Break))]
+    exits = [x for x in walk_no_nested(fnode) if isinstance(x, (ast.Return, ast.Break))]
     if exits:
         ctx.violation("R01d", f.file, "FixedKeyDictNode._child_edits", exits[0], "visits every pair",
                       f"`{norm(exits[0], 40)}` (line {exits[0].lineno}) lets the generator stop before every own and every "
